@@ -12,7 +12,7 @@ class Edit:
     """ replace transcript range [s, e) by alt. `anchor`: the record's reference range used
     for compatibility starts at anchor (VCF-style indels and AS records carry the base
     before the change) """
-    __slots__ = ('s', 'e', 'alt', 'rid', 'cls', 'rs', 're', 'rec', 'ls')
+    __slots__ = ('s', 'e', 'alt', 'rid', 'cls', 'rs', 're', 'rec', 'ls', 'u_only')
 
     def __init__(self, s, e, alt, rid, cls, rs, re_, rec=None):
         self.s, self.e, self.alt, self.rid, self.cls = s, e, alt, rid, cls
@@ -20,6 +20,7 @@ class Edit:
         self.rec = rec
         # start used by the liberal (U) compatibility test: AS records without their anchor
         self.ls = s if cls == 'AS' else rs
+        self.u_only = False      # usable only under the liberal reading (may-set U)
 
     def key(self):
         return (self.rs, self.re, self.s, self.e, self.alt, self.rid)
@@ -103,29 +104,34 @@ def tx_edits(ref:Ref, tid, records, start_index, usable_from=None):
                     ignored += 1
                     continue
                 ts, te = g2t[r['start']], g2t[r['end'] - 1] + 1
-                if ts - 1 < start_index or te >= n:
+                if ts < start_index or te >= n:
                     ignored += 1
                     continue
                 edits.append(Edit(ts, te, '', rid, 'AS', ts - 1, te, r))
+                # anchored on the last start-codon base: applied by the tool in some
+                # geometries only -> permitted, not demanded
+                edits[-1].u_only = ts - 1 < start_index
             elif r['as'] == 'ins':
                 if r['start'] not in g2t:
                     ignored += 1
                     continue
                 tp = g2t[r['start']]
-                if tp < start_index:
+                if tp < start_index - 1:
                     ignored += 1
                     continue
                 edits.append(Edit(tp + 1, tp + 1, gseq[r['dstart']:r['dend']], rid, 'AS',
                     tp, tp + 1, r))
+                edits[-1].u_only = tp < start_index
             else:
                 if r['start'] not in g2t or (r['end'] - 1) not in g2t:
                     ignored += 1
                     continue
                 ts, te = g2t[r['start']], g2t[r['end'] - 1] + 1
-                if ts - 1 < start_index or te >= n:
+                if ts < start_index or te >= n:
                     ignored += 1
                     continue
                 edits.append(Edit(ts, te, gseq[r['dstart']:r['dend']], rid, 'AS', ts - 1, te, r))
+                edits[-1].u_only = ts - 1 < start_index
     return edits, ignored
 
 
@@ -268,7 +274,7 @@ def canonical(ref:Ref, p, strict):
     return enz.canonical_pool(prots, p, strict=strict)
 
 
-def linear_bounds(ref:Ref, tid, records, opts):
+def linear_bounds(ref:Ref, tid, records, opts, max_n=9):
     """ (L, U, info) for the main call of transcript tid """
     p = params_of(opts)
     edits, ignored = tx_edits(ref, tid, records, start_index_of(ref, tid))
@@ -284,14 +290,14 @@ def linear_bounds(ref:Ref, tid, records, opts):
     L, U = set(), set()
     n_haps = 0
     multi = set()
-    for combo in subsets(edits):
+    for combo in subsets(edits, max_n):
         if not compatible(combo, strict=False):
             continue
         n_haps += 1
         a = linear_products(ref, tid, combo, p, opts, 'U', strict=False)
         b = linear_products(ref, tid, combo, p, opts, 'stop', strict=False)
         U |= a | b
-        if compatible(combo, strict=True):
+        if compatible(combo, strict=True) and not any(e.u_only for e in combo):
             # --coding-novel-orf is not part of what C01 demands of coding transcripts
             # (the tool only finds in-frame alternative starts there): U only
             nov = False if t.get('cds') else None
@@ -304,7 +310,8 @@ def linear_bounds(ref:Ref, tid, records, opts):
     ref_hi = reference_products(ref, tid, p, opts, strict=False)
     ref_lo = reference_products(ref, tid, p, opts, strict=True)
     L = L - ref_hi
-    U = U - ref_lo
+    # U is NOT reduced by the products of the unmodified transcript: realizability (C02)
+    # does not depend on it
     return L, U, dict(n_edits=len(edits), ignored=ignored, n_haps=n_haps,
         multi=multi - ref_hi)
 
@@ -404,7 +411,7 @@ def fusion_bounds(ref:Ref, r, records, opts):
                     L |= (l_u & prods_l)
     ref_hi = reference_products(ref, dtx, p, dict(opts, sect=opts.get('sect', False)), False)
     ref_lo = reference_products(ref, dtx, p, opts, True)
-    return L - ref_hi, U - ref_lo, dict(dlen=dlen, lins=len(parts['lins']),
+    return L - ref_hi, U, dict(dlen=dlen, lins=len(parts['lins']),
         rins=len(parts['rins']))
 
 
